@@ -26,7 +26,7 @@ DOC_DEG = dct(elements=lst(
     _fiber(length=real(), loss_coef=real()),
     _roadm(target_psd_out_mWperGHz=real(), per_degree_psd_out_mWperSlotWidth=dct_k({'deg 4': real()}), per_degree_pch_out_db=dct()),
     dct(uid=string(), type=const('Roadm'))))
-contract('harness:degree_roundtrip', harness=H_DEG, module=_MOD, props=['C18'], params={'doc': DOC_DEG},
+contract('harness:degree_roundtrip', harness=H_DEG, module=_MOD, props=['C18', 'C06'], params={'doc': DOC_DEG},
          let={'r0': "result['elements'][0]['params']", 'o0': "old(doc['elements'][0]['params'])",
               'r2': "result['elements'][2]['params']", 'o2': "old(doc['elements'][2]['params'])"},
          ensures=[('mixed_targets_of_one_roadm_restored',
@@ -44,7 +44,7 @@ contract('harness:degree_roundtrip', harness=H_DEG, module=_MOD, props=['C18'], 
                                                "len(result['elements']) == 4 and 'params' not in result['elements'][3]")],
          modifies=["doc['elements'][0]['params'][*]", "doc['elements'][2]['params'][*]"])
 
-contract(_MOD + '.convert_degree', props=['C18'], params={'json_data': DOC_DEG}, use_at_calls=False,
+contract(_MOD + '.convert_degree', props=['C18', 'C06'], params={'json_data': DOC_DEG}, use_at_calls=False,
          let={'t': "result['elements'][0]['params']['per_degree_power_targets']"},
          # YANG form: one list entry per (degree, equalisation type), carrying the degree name and the target under its type
          ensures=[('one_entry_per_degree', 'len(t) == 3'),
